@@ -7,7 +7,7 @@ the same-named child query.  Levenshtein/ordering/caps clauses are value-level: 
 """
 from .. import facts
 from ..prov import Prov, flatten, field_names
-from ..util import keyname, calls, last, with_closures
+from ..util import keyname, calls, last, with_closures, norm
 
 LEVEL = "other"
 TRAIT = "harper_core::spell::dictionary::Dictionary"
@@ -38,6 +38,52 @@ def receiver_roots(body, t):
 def _place_fields(op):
     pl = op.get("c") or op.get("m") or []
     return [e[2] for e in pl[1:] if isinstance(e, list) and e[0] == "f"]
+
+
+PLUMBING = {"chars", "collect", "as_ref", "as_slice", "deref", "as_str", "iter", "into_iter", "from_iter", "to_vec", "to_smallvec", "clone", "cloned", "copied", "into", "from", "borrow",
+            "as_deref", "map", "unwrap_or", "unwrap_or_default", "to_string", "to_owned"}
+
+
+def answer_sources(p, f, allowed):
+    """every definition of the return value must be the (plumbed) result of a call whose name is in
+    `allowed`; returns a list of offending descriptions (empty = the answer comes only from there)"""
+    from ..common import arg_roots as _roots, method as _m
+    pv = Prov(f)
+    bad = []
+    n = 0
+    for bi, b in enumerate(f.blocks):
+        if b["cleanup"]:
+            continue
+        for sx in b["s"]:
+            if sx["k"] == "assign" and sx["lhs"] == [0]:
+                n += 1
+                rv = sx["rv"]
+                if rv["k"] == "use" and "k" in rv["op"]:
+                    bad.append("a constant answer (%s) at line %s" % (rv["op"]["k"].get("txt") or rv["op"]["k"].get("const") or "?", sx["ln"]))
+                    continue
+                ops = [rv["op"]] if rv["k"] in ("use", "cast") else list(rv.get("ops", []))
+                if rv["k"] not in ("use", "agg", "cast"):
+                    bad.append("a computed answer (%s) at line %s" % (rv["k"], sx["ln"]))
+                    continue
+                names = set()
+                for o_ in ops:
+                    names |= {last(norm(o[3] or o[2] or "")) for o in _roots(f, pv, o_) if o[0] == "call"}
+                if not (names & set(allowed)) or names - set(allowed) - PLUMBING:
+                    bad.append("an answer built from %s at line %s" % (sorted(names - PLUMBING) or "no query", sx["ln"]))
+        t = b["t"]
+        if t["k"] == "call" and t.get("dest") == [0]:
+            n += 1
+            nm = _m(t)
+            if nm in allowed:
+                continue
+            names = set()
+            for a in t["args"]:
+                names |= {last(norm(o[3] or o[2] or "")) for o in _roots(f, pv, a) if o[0] == "call"}
+            if nm not in PLUMBING or not (names & set(allowed)) or names - set(allowed) - PLUMBING:
+                bad.append("the result of %s at line %s" % (nm, t["ln"]))
+    if n == 0:
+        bad.append("no definition of the return value found")
+    return bad
 
 
 def run(ck, tier):
@@ -83,7 +129,11 @@ def run(ck, tier):
                     roots, _ = receiver_roots(b, t)
                     if b is f and not any(r == ("arg", 1) for r in roots):
                         ok = False
-                ck.decide("R-C15-str", key, ok, f.span, "%s delegates to %s on its own receiver" % (ms, sorted(set(names))))
+                extra = answer_sources(p, f, (m, ms)) if f.get("kind") != "Closure" and not p.closures_of(f.name) else []
+                if extra:
+                    ck.refuted("R-C15-str", key, f.span, "%s has another source of answers besides %s: %s - the str and char-slice variants of this query can disagree" % (ms, m, "; ".join(extra[:2])))
+                else:
+                    ck.decide("R-C15-str", key, ok, f.span, "%s delegates to %s on its own receiver and answers with nothing else" % (ms, sorted(set(names))))
     ck.floor("R-C15-str", "(m, m_str) pairs", npairs, 16)
 
     # ---- FstDictionary delegates exact queries -------------------------------------------
@@ -104,8 +154,12 @@ def run(ck, tier):
             continue
         b, bi, t, _ = [x for x in dc if x[3] == m][0]
         roots, fields = receiver_roots(b, t)
+        extra = answer_sources(p, f, (m,)) if not p.closures_of(f.name) else []
+        if extra:
+            ck.refuted("R-C15-fst", key, f.span, "FstDictionary::%s has another source of answers besides full_dict.%s: %s - the FST back-end can answer differently from the word map it wraps" % (m, m, "; ".join(extra[:2])))
+            continue
         ck.decide("R-C15-fst", key, "full_dict" in fields and ("arg", 1) in roots, f.loc(t["ln"]),
-                  "delegates to full_dict.%s (receiver fields %s)" % (m, sorted(fields)))
+                  "delegates to full_dict.%s and answers with nothing else (receiver fields %s)" % (m, sorted(fields)))
     ck.floor("R-C15-fst", "exact-query methods of FstDictionary", n, 10)
     # FstDictionary::new: full_dict and the fst are built from the same (sorted, deduplicated) vector
     newf = [f for f in p.fns.values() if keyname(p, f) == "FstDictionary::new"]
